@@ -147,20 +147,20 @@ Fixpoint parse_digits (l : bytes) (acc : N) : option N :=
   | [] => Some acc
   | c :: r => if (48 <=? c) && (c <=? 57) then parse_digits r (acc * 10 + (c - 48)) else None
   end.
+Definition in_range (neg : bool) (n : N) : option Z :=
+  if neg then (if n <=? 9223372036854775808 then Some (- Z.of_N n)%Z else None)
+  else (if n <=? 9223372036854775807 then Some (Z.of_N n) else None).
+Definition parse_signed (neg : bool) (r : bytes) : option Z :=
+  match r with
+  | [] => None
+  | _ => match parse_digits r 0 with Some n => in_range neg n | None => None end
+  end.
 Definition parse_int (s : bytes) : option Z :=
   match s with
   | [] => None
-  | 45 :: r => match r with [] => None | _ =>
-               match parse_digits r 0 with
-               | Some n => if n <=? 9223372036854775808 then Some (- Z.of_N n)%Z else None
-               | None => None end end
-  | 43 :: r => match r with [] => None | _ =>
-               match parse_digits r 0 with
-               | Some n => if n <=? 9223372036854775807 then Some (Z.of_N n) else None
-               | None => None end end
-  | _ => match parse_digits s 0 with
-         | Some n => if n <=? 9223372036854775807 then Some (Z.of_N n) else None
-         | None => None end
+  | c :: r => if c =? 45 then parse_signed true r
+              else if c =? 43 then parse_signed false r
+              else parse_signed false s
   end.
 
 Example nine_ten_not_lex : lexlt (dec 9) (dec 10) = false.
